@@ -4,9 +4,16 @@ Proved (all inputs): per-function postconditions of the real tokenize.py functio
 spans exactly the measured blank prefix, DEDENTs are zero-width at the cursor, indentation stack stays strictly increasing),
 next_end_tokens (implicit NEWLINE rule, one DEDENT per open level, exactly one ENDMARKER, last), _tokenize (ends with the
 ENDMARKER; cursor invariants 0 <= pos <= max = len(line)); regex lemmas (E3): every alternative of the master pattern but
-End is epsilon-free and is a named group spanning its alternative (token span = match span), string-end patterns end with
-their quote.  ASSUMED: the contracts of handle_end_progs / next_psuedo_matches / handle_fstring_progs (regex dispatch and
-the frame list; not verified from their bodies) and re.match.  Bounded: tiling reconstruction on an input product.
+End is epsilon-free and is a named group spanning its alternative (token span = match span), string-end / field-start / format-spec
+patterns end with the character they look for.  Stage 2 (strings, f-strings) is verified from the real bodies too: prog_token,
+add_prog, pop_mode, the EndProg methods, handle_fstring_progs (literal text buffered from earlier lines + this line's text is ONE
+FSTRING_MIDDLE adjacent to the delimiter token; nothing dropped), handle_end_progs (a closing quote gives one STRING token with
+everything buffered; otherwise the rest of the line goes into the frame's buffer; when tokens were produced the cursor stands
+right after the last one), next_psuedo_matches (a token is the source slice old cursor..new cursor; a plain string start is
+carried by its frame).  ASSUMED: what `re` does (contract of TokenizerState.match in engine/pymatch.py, tied to the real patterns
+by the lemmas above); frames below the top of end_progs are not modelled (frame invariant + three syntactic side conditions,
+C10.frames.*).  The composition of the per-function clauses into "the whole stream tiles the input" is argued, not proved.
+Bounded: tiling reconstruction on an input product.
 """
 from __future__ import annotations
 
@@ -38,6 +45,43 @@ def rx_obligations(rep: Report):
         if n and n != "End":
             decide(rep, f"C08.pseudo.epsfree.{n}", f"alternative {n} never matches the empty string (a token always covers >= 1 character)",
                    lambda items=items: rx.eps_free(rx.Translator("drop").seq(items)), "C08")
+    # the End alternative (backslash-newline | \\Z): its only empty match is the end-of-string assertion (used by the Match contract of E1)
+    for n, items, _ok in tops:
+        if n == "End":
+            try:
+                grp = list(items[0][1][-1]) if items and items[0][0] is rx.sre_c.SUBPATTERN else list(items)
+                branches = [list(b_) for b_ in grp[0][1][1]] if len(grp) == 1 and grp[0][0] is rx.sre_c.BRANCH else None
+                ok = branches is not None and all(
+                    (len(b_) == 1 and b_[0][0] is rx.sre_c.AT and b_[0][1] in (rx.sre_c.AT_END_STRING, rx.sre_c.AT_END)) or rx.eps_free(rx.Translator("drop").seq(b_))[0] == "unsat"
+                    for b_ in branches)
+            except Exception as e:      # noqa: BLE001
+                rep.undecided("C08.pseudo.end_alt", "lemma", "structure of the End alternative", "syntactic", repr(e))
+                continue
+            desc = "every branch of the End alternative is non-empty or is exactly the end-of-string assertion: End matches the empty string only at the end of the line"
+            if ok:
+                rep.ok("C08.pseudo.end_alt", "lemma", desc, "syntactic+z3-regex", function="peg_parser/tokenize.py:next_psuedo_matches")
+            else:
+                rep.fail("C08.pseudo.end_alt", "lemma", desc, "syntactic+z3-regex", f"branches: {branches}", witness=str(branches)[:300])
+    # field-start and format-spec patterns end with the brace they look for (Match contract of E1: line[e-1] is the brace)
+    pats = {f"startpats[{q}]": p_ for q, p_ in (d.get("startpats") or {}).items()}
+    pats.update({k: o[k] for k in ("SpecLBrace", "SpecRBrace") if k in o})
+    for nm, pat in sorted(pats.items()):
+        want = "}" if nm == "SpecRBrace" else "{"
+        oid = "C08.bracepat.ends." + nm.replace("[", "_").replace("]", "").replace("'", "s").replace('"', "d")
+        desc = f"the pattern {nm} ends with the literal {want!r}: a match is non-empty and its last character is that brace"
+        try:
+            items = list(rx.sre_parse.parse(pat))
+            ok = bool(items) and items[-1][0] is rx.sre_c.LITERAL and chr(items[-1][1]) == want
+        except Exception as e:      # noqa: BLE001
+            rep.undecided(oid, "lemma", desc, "syntactic", repr(e))
+            continue
+        if ok:
+            rep.ok(oid, "lemma", desc, "syntactic", function="peg_parser/tokenize.py")
+        else:
+            rep.fail(oid, "lemma", desc, "syntactic", f"pattern {pat!r}", witness=pat)
+    if len(pats) < 6:
+        rep.fail("C08.bracepat.present", "lemma", "the four per-quote field-start patterns and the two format-spec patterns exist (the E1 Match contract speaks about them)",
+                 "syntactic", f"found {sorted(pats)}", witness=sorted(pats))
     for q in ("'", '"', "'" * 3, '"' * 3):
         oid = f"C08.endpat.ends.{len(q)}{'s' if q[0] == chr(39) else 'd'}"
         desc = f"the string-end pattern for {q} ends with the literal {q} (a STRING token ends at its closing quote)"
